@@ -25,6 +25,14 @@ CHECKS = {
    technique="GuardMachine (rule-status cache, variable memo, evaluation stack) model-checked with TLC under every schedule; permutation law over all CNF shapes; recorded permutation groups validated by TraceGroup; hook-event streams validated against GuardMachine by TraceMemo",
    text="The history dimension is modelled explicitly: GuardMachine has one action per critical section of the scopes (cache miss/hit of rule_status, first evaluation / memo read of a variable, key capture, fresh root scope) and TLC checks, for every reference graph over three rules, every status assignment and every order in which file rules and references are visited, that the cache is coherent, single-assigned, never re-entered and that the result does not depend on the schedule. TLC also checks that the combination rules are invariant under every permutation and repetition of lines and alternatives (shapes up to 4x3). Against the code: random rule files are evaluated together with variants in which lines, alternatives or rules are permuted, a clause is repeated or a rule is duplicated under a new name, and TraceGroup requires identical verdicts (as multisets) unless an ordering raised an error; the hook events of random evaluations (rules referenced before and after their definition, variables read several times) are validated step by step against GuardMachine.",
    note=NOTE_BASE + "Hooks (cfg guard_verif) report after the state change; block scopes are identified by address, so the single-assignment check is exact for the root scope and weaker (memo read must return the last computed count) for block scopes."),
+ "C09": dict(level="model_checking", engine="spec+trace", design="5/C09",
+   technique="report builder specified in TLA+ (GuardReport.Simplify, Combine, StatusAnd); union/status laws model-checked (MC_Report); recorded structured reports validated against Simplify of the record of the same run and the partition laws (TraceReport)",
+   text="TLC checks exhaustively, over all combinations of three abstract per-rules-file reports, that combining reports is a union on which the partition and status laws survive independently of order. Against the code, for random rule files (distinct names; blocks, type blocks, disjunctions, rule references, custom messages) the structured report returned by the library call is compared with GuardReport.Simplify applied to the evaluation record of the same run: every listed check is a FAIL value check of that rule's subtree with its kind, paths, values and custom message, every FAIL rule is listed, nothing is listed under PASS/SKIP rules; the partition law against the evaluated (rule, status) list and the file-status law are evaluated on the report; a report that is not JSON, an error or a panic are violations. The record itself is tied to Denote by the same trace (verdicts, shape, check details).",
+   note=NOTE_BASE + "The multi-rules-file union is decided on the model (MC_Report) and, against the code, by the CLI checks of C07/C12 when built."),
+ "C10": dict(level="model_checking", engine="spec+trace", design="5/C10",
+   technique="PathOK invariant over the single-clause space (TLC); recorded value checks compared field by field (kind, path, value of from/to) with the specification's record and resolved against the document (TraceReport)",
+   text="TLC checks on the specification that every result of every query of MC_E1 sits at its path in the document and that an unresolved result names an existing point whose next queried segment is missing. Against the code, for random rule files the kind, slash path and value of the `from` and `to` of every value check in the implementation's record must equal those the specification derives, and every path of a value that comes from the data must resolve in the document to exactly the reported value (PathsSound).",
+   note=NOTE_BASE + "Line/column positions (CLI, libyaml loader) are not yet covered by this check; remaining_query strings are not compared."),
  "C13": dict(level="model_checking", engine="spec+replay", design="5/C13",
    technique="algebra laws (trichotomy, <=/>= decomposition, order, reflexivity/symmetry of ==, range/regex/in membership, cross-type) evaluated by TLC over the full value x operator x rhs matrix of MC_C13; every cell replayed into run_checks",
    text="Exhaustive in both tiers: TLC enumerates every ordered pair of the 38-value universe (boundary ints, finite floats, unicode/prefix strings, bools, null, lists, maps) x six operators x both polarities, the four range bracket forms, a regex table and in-lists, with the left side loaded from the data and the right side a literal, plus all pairs with both sides loaded from the data; the laws of the property are evaluated on the whole matrix and every cell is executed against the real evaluator and compared. A law broken on the matrix is therefore broken by the implementation; such laws are reported by name and input class.",
@@ -36,7 +44,7 @@ CHECKS = {
 }
 
 m = {"version": 1,
-     "setup_cmd": "cd /verif/harness && cargo build --offline && cd /verif/spec && for f in GuardValues GuardOps GuardEval TraceEval TraceNeg TraceRecord TraceGroup TraceMemo MC_E1 MC_C13 MC_Cnf MC_Machine; do tla-sany $f.tla > /dev/null || exit 1; done",
+     "setup_cmd": "cd /verif/harness && cargo build --offline && cd /verif/spec && for f in GuardValues GuardOps GuardEval TraceEval TraceNeg TraceRecord TraceGroup TraceMemo TraceReport MC_Report MC_E1 MC_C13 MC_Cnf MC_Machine; do tla-sany $f.tla > /dev/null || exit 1; done",
      "hooks": {"guard": "guard_verif",
                "enable": "rustflags = [\"--cfg\", \"guard_verif\"] in /verif/harness/.cargo/config.toml (checks build the cfn-guard library through the harness path dependency on /repo/guard)",
                "baseline_off_cmd": "cd /repo && cargo nextest run --workspace --no-fail-fast --test-threads 8 --offline || cargo test --workspace --no-fail-fast --offline",
